@@ -1395,6 +1395,79 @@ fn has_return_or_try(b: &syn::Block) -> (bool, bool) {
     }
     let mut f = F(false, false); f.visit_block(b); (f.0, f.1)
 }
+/// H1r: the statements of a function body with its early exits written as nesting, so that the value of the block is the value the function
+/// returns and no `return` / statement-level `?` is left: `return E;` ends the block with `E`; `if c { ..; return X }` followed by REST is
+/// `if c { ..; X } else { REST }`; `let P = e else { ..; return X };` REST is `match e { P => { REST }, _ => { ..; X } }`;
+/// `let P = e?;` REST is `match e { Ok(P) => { REST }, Err(x) => Err(x.into()) }` (`None` for an `Option`). Nothing is duplicated, and
+/// `None` is returned where a shape is not one of these (the helper is then not inlined).
+fn structured_returns(stmts: &[Stmt], ret_is_option: bool) -> Option<Vec<Stmt>> {
+    fn ends_in_return(b: &[Stmt]) -> bool { matches!(b.last(), Some(Stmt::Expr(Expr::Return(_), _))) }
+    fn has_ret(st: &Stmt) -> bool { let b: syn::Block = parse_quote!({ #st }); let (r, t) = has_return_or_try(&b); r || t }
+    let mut out: Vec<Stmt> = vec![];
+    for (i, st) in stmts.iter().enumerate() {
+        let rest = &stmts[i + 1..];
+        if !has_ret(st) { out.push(st.clone()); continue; }
+        match st {
+            Stmt::Expr(Expr::Return(r), _) => { if let Some(e) = &r.expr { let e = &**e; if has_ret(&Stmt::Expr(e.clone(), None)) { return None; } out.push(Stmt::Expr(e.clone(), None)); } return Some(out); }
+            Stmt::Expr(Expr::If(ife), _) if !matches!(&*ife.cond, Expr::Let(_)) || true => {
+                let cond = &ife.cond;
+                if has_ret(&Stmt::Expr((**cond).clone(), None)) { return None; }
+                let then_ret = ends_in_return(&ife.then_branch.stmts);
+                let (else_stmts, else_ret): (Vec<Stmt>, bool) = match &ife.else_branch { None => (vec![], false), Some((_, e)) => match &**e { Expr::Block(b) => (b.block.stmts.clone(), ends_in_return(&b.block.stmts)), _ => return None } };
+                let t: Vec<Stmt> = if then_ret { structured_returns(&ife.then_branch.stmts, ret_is_option)? } else { if !else_ret { return None; } let mut v = ife.then_branch.stmts.clone(); v.extend(rest.iter().cloned()); structured_returns(&v, ret_is_option)? };
+                let e: Vec<Stmt> = if else_ret { structured_returns(&else_stmts, ret_is_option)? } else { let mut v = else_stmts.clone(); v.extend(rest.iter().cloned()); structured_returns(&v, ret_is_option)? };
+                out.push(Stmt::Expr(parse_quote!(if #cond { #(#t)* } else { #(#e)* }), None));
+                return Some(out);
+            }
+            Stmt::Local(l) => {
+                let init = l.init.as_ref()?;
+                let pat = &l.pat;
+                if let Some((_, d)) = &init.diverge {
+                    // let P = e else { ..; return X };
+                    let Expr::Block(db) = &**d else { return None; };
+                    if !ends_in_return(&db.block.stmts) { return None; }
+                    let e = &init.expr; if has_ret(&Stmt::Expr((**e).clone(), None)) { return None; }
+                    let dv = structured_returns(&db.block.stmts, ret_is_option)?;
+                    let rv = structured_returns(rest, ret_is_option)?;
+                    let p: syn::Pat = match pat { syn::Pat::Type(pt) => (*pt.pat).clone(), o => o.clone() };
+                    out.push(Stmt::Expr(parse_quote!(match #e { #p => { #(#rv)* } _ => { #(#dv)* } }), None));
+                    return Some(out);
+                }
+                // let P = e?;
+                let Expr::Try(t) = &*init.expr else { return None; };
+                let e = &t.expr; if has_ret(&Stmt::Expr((**e).clone(), None)) { return None; }
+                let rv = structured_returns(rest, ret_is_option)?;
+                let p: syn::Pat = match pat { syn::Pat::Type(pt) => (*pt.pat).clone(), o => o.clone() };
+                if ret_is_option { out.push(Stmt::Expr(parse_quote!(match #e { Some(#p) => { #(#rv)* } None => None }), None)); }
+                else { out.push(Stmt::Expr(parse_quote!(match #e { Ok(#p) => { #(#rv)* } Err(hx_early) => Err(hx_early.into()) }), None)); }
+                return Some(out);
+            }
+            // e?;   (the value is dropped)
+            Stmt::Expr(Expr::Try(t), Some(_)) => {
+                let e = &t.expr; if has_ret(&Stmt::Expr((**e).clone(), None)) { return None; }
+                let rv = structured_returns(rest, ret_is_option)?;
+                if ret_is_option { out.push(Stmt::Expr(parse_quote!(match #e { Some(_) => { #(#rv)* } None => None }), None)); }
+                else { out.push(Stmt::Expr(parse_quote!(match #e { Ok(_) => { #(#rv)* } Err(hx_early) => Err(hx_early.into()) }), None)); }
+                return Some(out);
+            }
+            // tail `e?` and `Ok(e?)` / `Some(e?)`
+            Stmt::Expr(Expr::Try(t), None) if rest.is_empty() => {
+                let e = &t.expr; if has_ret(&Stmt::Expr((**e).clone(), None)) { return None; }
+                let _ = e; return None;   // (`e?` as the value of a function returning Result / Option does not type-check: not a shape that occurs)
+            }
+            Stmt::Expr(Expr::Call(c), None) if rest.is_empty() && c.args.len() == 1 => {
+                let f = nospace(&c.func.to_token_stream().to_string());
+                let Expr::Try(t) = &c.args[0] else { return None; };
+                let e = &t.expr; if has_ret(&Stmt::Expr((**e).clone(), None)) { return None; }
+                if f == "Ok" && !ret_is_option { out.push(Stmt::Expr(parse_quote!(match #e { Ok(hx_v) => Ok(hx_v), Err(hx_early) => Err(hx_early.into()) }), None)); return Some(out); }
+                if f == "Some" && ret_is_option { out.push(Stmt::Expr(parse_quote!(match #e { Some(hx_v) => Some(hx_v), None => None }), None)); return Some(out); }
+                return None;
+            }
+            _ => return None,
+        }
+    }
+    Some(out)
+}
 pub fn inline_new_helpers(block: &mut syn::Block, helpers: &std::collections::BTreeMap<String, Helper>, cx: &mut Ctx) {
     if helpers.is_empty() && !block.stmts.iter().any(|st| matches!(st, Stmt::Item(syn::Item::Fn(_)))) { return; }
     // which helper does this expression call (directly; `.await`ed for an async one)?
@@ -1482,7 +1555,7 @@ pub fn inline_new_helpers(block: &mut syn::Block, helpers: &std::collections::BT
         let inner = match e { Expr::Await(a) => &*a.base, Expr::Try(t) => match &*t.expr { Expr::Await(a) => &*a.base, o => o }, o => o };
         matches!(inner, Expr::MethodCall(m) if matches!(&*m.receiver, Expr::Path(p) if p.path.is_ident("self")))
     }
-    struct V<'a> { helpers: &'a std::collections::BTreeMap<String, Helper>, fired: usize, depth: usize, capturing: usize }
+    struct V<'a> { helpers: &'a std::collections::BTreeMap<String, Helper>, fired: usize, depth: usize, capturing: usize, h1r: usize }
     impl<'a> VisitMut for V<'a> {
         fn visit_expr_mut(&mut self, e: &mut Expr) {
             let cap = matches!(e, Expr::Closure(_) | Expr::Async(_));
@@ -1492,8 +1565,12 @@ pub fn inline_new_helpers(block: &mut syn::Block, helpers: &std::collections::BT
             if self.depth > 3 { return; }
             if self.capturing > 0 && is_self_method(e) { return; }
             // `f(..)?`: an error the helper leaves with through a `?` of its own is the error this `?` passes on
-            if let Expr::Try(t) = e { if let Some((h, args)) = callee(&t.expr, self.helpers) {
-                let (ret, _) = has_return_or_try(&h.block);
+            if let Expr::Try(t) = e { if let Some((mut h, args)) = callee(&t.expr, self.helpers) {
+                let (mut ret, _) = has_return_or_try(&h.block);
+                if ret {
+                    let rt = match &h.sig.output { syn::ReturnType::Type(_, t) => nospace(&t.to_token_stream().to_string()), _ => String::new() };
+                    if let Some(st) = structured_returns(&h.block.stmts, rt.starts_with("Option<")) { h.block.stmts = st; let (r2, t2) = has_return_or_try(&h.block); if !r2 && !t2 { ret = false; self.h1r += 1; } }
+                }
                 if !ret {
                     let mut n = build(&h, args);
                     self.depth += 1; visit_mut::visit_expr_mut(self, &mut n); self.depth -= 1;
@@ -1501,9 +1578,16 @@ pub fn inline_new_helpers(block: &mut syn::Block, helpers: &std::collections::BT
                 }
                 return;
             } }
-            if let Some((h, args)) = callee(e, self.helpers) {
+            if let Some((mut h, args)) = callee(e, self.helpers) {
                 let (ret, tr) = has_return_or_try(&h.block);
-                if ret || tr { return; }
+                if ret || tr {
+                    // H1r: early exits written as nesting, where the shapes allow it
+                    let rt = match &h.sig.output { syn::ReturnType::Type(_, t) => nospace(&t.to_token_stream().to_string()), _ => String::new() };
+                    let Some(st) = structured_returns(&h.block.stmts, rt.starts_with("Option<")) else { return; };
+                    h.block.stmts = st;
+                    let (r2, t2) = has_return_or_try(&h.block); if r2 || t2 { return; }
+                    self.h1r += 1;
+                }
                 let mut n = build(&h, args);
                 self.depth += 1; visit_mut::visit_expr_mut(self, &mut n); self.depth -= 1;
                 *e = n; self.fired += 1;
@@ -1529,7 +1613,8 @@ pub fn inline_new_helpers(block: &mut syn::Block, helpers: &std::collections::BT
         Some(Stmt::Expr(te, Some(_))) => { if let Some((h, args)) = callee(te, helpers) { if matches!(h.sig.output, syn::ReturnType::Default) { *te = build(&h, args); fired += 1; } } }
         _ => {}
     }
-    let mut v = V { helpers, fired: 0, depth: 0, capturing: 0 };
+    let mut v = V { helpers, fired: 0, depth: 0, capturing: 0, h1r: 0 };
     v.visit_block_mut(block);
     for _ in 0..(fired + v.fired) { cx.fire("H1"); }
+    for _ in 0..v.h1r { cx.fire("H1r"); }
 }
